@@ -203,6 +203,53 @@ def module_level(i: int, q: int) -> bool:
         _reset_module()
 
 
+def module_unknown_name(u: int) -> bool:
+    """
+    pre: 0 <= u < len(POOL)
+    post: _
+    """
+    # lookup by name on the global library: a name that is not a tag raises the documented error - unless Python itself
+    # resolves it as an attribute of the module object (the module's functions, classes, imports, dunders), which never
+    # reaches the library.  In particular the library's INTERNAL state is not a tag.
+    hx.begin()
+    t = hx.P['t']
+    _reset_module()
+    try:
+        names = ['NONE']
+        for k in range(t):
+            nm0 = POOL[ORDINARY[k]]
+            Tags.add_tag(nm0)
+            names.append(nm0)
+        nm = _name(u)
+        if nm in names:
+            hx.reach('is_a_tag')
+            v = getattr(Tags, nm)
+            return hx.end((type(v) is int and v == names.index(nm)) or hx.fail("Tags.<tag> is not its id", name=nm, got=repr(v)))
+        # (whether Python resolves the name itself is observed, not predicted: the module's lookup hook is wrapped)
+        real_hook = vars(Tags)['__getattr__']
+        consulted = []
+
+        def hook(name_):
+            consulted.append(name_)
+            return real_hook(name_)
+        Tags.__getattr__ = hook
+        try:
+            try:
+                v = getattr(Tags, nm)
+            except TagNotFoundError:
+                hx.reach('not_a_tag')
+                return hx.end(True)
+        finally:
+            Tags.__getattr__ = real_hook
+        if not consulted:
+            hx.reach('module_attribute')
+            return hx.end(True)
+        return hx.end(hx.fail("module-level lookup of a name that is not a tag returned a value instead of raising TagNotFoundError",
+                              name=nm, got=repr(v)))
+    finally:
+        _reset_module()
+
+
 def isolation(i: int) -> bool:
     """
     pre: 0 <= i < len(POOL)
@@ -257,5 +304,7 @@ def obligations(tier):
         X("module_level", module_level, parts=[{"t": t} for t in ((1,) if tier == "quick" else (0, 1, 2))],
           labels=("accepted", "rejected"), timeout=900,
           encoded=(Tags.add_tag, Tags.get_tag_name, Tags.itemize, Tags.__getattr__)),
+        X("module_unknown_name", module_unknown_name, parts=[{"t": 2}], labels=("is_a_tag", "module_attribute", "not_a_tag"), timeout=300,
+          encoded=(Tags.__getattr__,), bounds={"name": "any of the pool", "earlier tags": 2}),
         X("isolation", isolation, labels=("both",), timeout=900, encoded=enc),
     ]
